@@ -21,10 +21,8 @@ pub fn run(args: &Args, r: &mut Report) {
         "c05-no-request-outside-check",
         "c05-check-follows-positive-decision",
         "c05-negative-decision-no-action",
-        "c05-announced-source",
         "c05-request-source",
         "c05-updatecheck-flags",
-        "c05-plan-params",
         "c05-install-after-approval",
         "c05-no-install-after-deferral-or-denial",
         "c05-reboot-consent",
@@ -63,7 +61,7 @@ pub fn run(args: &Args, r: &mut Report) {
         }
         case.shape.push(l1);
         case.shape.push(format!("{:?}", case.script.decisions.iter().map(|d| match d { Decision::Ok(_) => 'O', Decision::OkDeferred(_) => 'o', Decision::TooSoon => 's', Decision::Throttled => 't', Decision::Denied => 'd' }).collect::<String>()));
-        let h = Hostile { ctl_budget: if start_mode { rng.usize(4) } else { 0 }, ctl_num: 1, ctl_den: 6, spurious: rng.bool(), multi_release: rng.bool() };
+        let h = Hostile { ctl_budget: if start_mode { rng.usize(4) } else { 0 }, ctl_num: 1, ctl_den: 6, spurious: rng.bool(), multi_release: rng.bool(), lag: rng.bool() };
         case.shape.push(format!("ctl{}", h.ctl_budget));
         case.nontrivial = true;
         case.max_steps = 8_000;
